@@ -445,6 +445,7 @@ def dmrg_cross(function, N, eps = 1e-9, nswp = 10, x_start = None, kick = 2, dty
     # cores = (ones(N,dtype=dtype)).cores
     
 
+    cores, rank = rl_orthogonal(cores,rank,False)
     cores, rank = lr_orthogonal(cores,rank,False)
     
     Mats = []*(d+1)
